@@ -254,6 +254,22 @@ def run_worker(job, r):
         nseen = len(srv.seen)
         if not transport.startswith('async'):
             rc_opt = ' reusectx=1' if rng.random() < 0.3 else ''       # the caller's own verification context, just used on the original
+            vc_wrong = None
+            if not rc_opt and rng.random() < 0.3:
+                # the caller's context names the document hash and level the result has to be for: the right ones change nothing, wrong ones make
+                # the extension fail whatever the extender answered
+                doc = src.rfc.input_hash if src.rfc is not None else src.chains[0].input_hash
+                cc0 = src.chains[0].links[0].corr or 0
+                kind_vc = rng.choice(['right', 'right', 'other-hash', 'other-hash', 'level-too-high'])
+                if kind_vc == 'level-too-high' and src.rfc is not None:
+                    kind_vc = 'other-hash'
+                d2 = doc if kind_vc != 'other-hash' else (doc[:-1] + bytes([doc[-1] ^ 1]) if rng.random() < 0.5 else gen.rnd_imprint(rng, doc[0]))
+                l2 = 0 if kind_vc != 'level-too-high' else cc0 + rng.choice([1, 3])
+                if src.rfc is None and kind_vc == 'right' and cc0 > 0 and rng.random() < 0.5:
+                    l2 = cc0
+                rc_opt = ' vcdoc=%s vclvl=%d' % (d2.hex(), l2)
+                vc_wrong = kind_vc if kind_vc != 'right' else None
+                r.count('extensions_with_document_in_context_%s' % kind_vc)
             if pubstr:
                 q = cmd('extend 0 0 1 pub=%s%s' % (pubstr, rc_opt))
             elif target is not None:
@@ -350,6 +366,12 @@ def run_worker(job, r):
             r.count('v1_unauthenticated_bit_judged_as_honest')
             b = 'honest'
         must_fail = b not in HONEST or how in ('to-earlier', 'pubrec-wrong-hash')
+        if not transport.startswith('async') and vc_wrong:
+            must_fail = True
+            if rc == 0:
+                r.viol('extend:%s:context-names-%s:success' % (transport, vc_wrong), 'the caller\'s verification context names %s; extending reported success (behaviour %s, target %s)' % (
+                    'another document hash' if vc_wrong == 'other-hash' else 'a level above the first level correction', b, how), replay + ' context:' + rc_opt + ' result=' + (sig or ''))
+                continue
         if how == 'to-equal' and t == 0:
             must_fail = True
         if not must_fail:
